@@ -57,6 +57,8 @@ KINDS = {
     "repvar":  (".repeat {NSYM} { .align 4\n .word .\n .byte 1, 2, 3 }", "repvar", True, ["N"]),
     "insert":  ("insert_file \"ins.bin\"", 3, False, []),
     "include": (".include \"inc.mac\"", 3, True, []),
+    "include1": (".include \"inc1.mac\"", 4, True, []),
+    "include1n": (".include \"inc1n.mac\"", 4, True, []),
     "include2": (".include \"inc2.mac\"", "inc2", False, []),
     "include3": (".include \"inc3.mac\"", "inc3", False, []),
 }
@@ -134,6 +136,8 @@ def build_file(kinds, fileno, nplace, kplace):
 def setup_aux():
     write_aux_file("c02", "ins.bin", INSERT_BYTES)
     write_aux_file("c02", "inc.mac", INC_TEXT)
+    write_aux_file("c02", "inc1.mac", "tbl: .word 1, 2\n")          # the whole file is one statement (pending while the base is unknown)
+    write_aux_file("c02", "inc1n.mac", ".include \"inc1.mac\"\n")  # ... and a file that only includes such a file
     write_aux_file("c02", "inc2.mac", INC2_TEXT)
     write_aux_file("c02", "inc3.mac", INC3_TEXT)
 
